@@ -81,7 +81,7 @@ CallDiff(msgs, rest, ob) ==
        \cup (IF wild THEN {} ELSE IF alt THEN (IF Len(CatErrs(rs)) = Len(ob.errs) THEN {} ELSE {"errs"}) ELSE IF ErrsMatch(CatErrs(rs), ob.errs) THEN {} ELSE {"errs"})
        \cup (IF partial \/ CatOut(rs) = ob.out THEN {} ELSE {"out"} \cup Hints(logs))
        \cup (IF partial \/ SumFlush(rs) = ob.flush THEN {} ELSE {"flush"} \cup Hints(logs))
-       \cup (IF partial /\ Len(rs) = 1 /\ rs[1].pbytes # <<>> /\ SubSeq(ob.out, 1, Len(rs[1].pbytes)) # rs[1].pbytes THEN {"out.block-header"} ELSE {})
+       \cup (IF partial /\ Len(rs) = 1 /\ rs[1].pbytes # <<>> /\ (Len(ob.out) < Len(rs[1].pbytes) \/ SubSeq(ob.out, 1, Len(rs[1].pbytes)) # rs[1].pbytes) THEN {"out.block-header"} ELSE {})
        \cup (IF wild \/ ret = (ob.ret = 1) THEN {} ELSE {"ret"})
        \cup (IF Len(rest) = ob.pos THEN {} ELSE {"pending"})
 OvrDiff(ob) == (IF ob.ret = 0 THEN {} ELSE {"ret"}) \cup (IF ob.errs = <<0 - 363>> THEN {} ELSE {"errs"})
